@@ -121,7 +121,7 @@ Undelivered(h, d) ==
 App(p, h) ==
     LET s == snt1(h)  ok == h.out.ok IN
     CASE h.out.set /\ h.par.entry = "crash" -> p \in {"C09", "C10", "C19"}     \* the process died (panic in a goroutine of the code)
-      [] h.out.set /\ h.par.entry = "lab" -> p = "C13"
+      [] h.out.set /\ h.par.entry = "lab" -> (p = "C13" /\ h.par.bound_ms = 0) \/ (p = "C08" /\ h.par.bound_ms > 0)
       [] h.out.set /\ h.par.entry = "doc" -> p \in {"C16", "C17", "C18"} \/ (p = "C08" /\ h.par.docin.bound_us > 0)
       [] h.out.set /\ h.par.entry = "docstress" -> p = "C16"
       [] h.out.set /\ h.par.entry = "cache" -> p = "C18"
@@ -144,7 +144,7 @@ App(p, h) ==
 Holds(p, h) ==
     LET s == snt1(h)  d == dl1(h)  hp == h.out.hops IN
     CASE h.par.entry = "crash" -> FALSE
-      [] h.par.entry = "lab" -> C13_lab(h)
+      [] h.par.entry = "lab" -> (IF p = "C08" THEN C08_lab(h) ELSE C13_lab(h))
       [] h.par.entry = "doc" -> (CASE p = "C16" -> C16_json(h.out) /\ Conforms(h.par.docin, h.out.doc)
                                    [] p = "C17" -> h.out.panic = "" /\ C17_json(h.par.docin, h.out)
                                    [] p = "C18" -> C18_json(h.par.docin, h.out) /\ C18_reprobe(h.par.docin, h.got)
